@@ -98,6 +98,11 @@ def main() -> int:
                 VARIANTS.append({"prop": m.group(1), "id": f"{m.group(1)}:seed-{meta_path.parent.name}", "expect": "F",
                                  "rule": m.group(2), "edits": [], "patchfile": str(meta_path.parent / "patch.diff")})
 
+        if meta.get("retired"):
+            # a repair of the repository made this change harmless: the checks must now stay silent on it
+            VARIANTS.append({"prop": meta["property"], "id": f"{meta['property']}:retired-seed-{meta_path.parent.name}", "expect": "S", "rule": "",
+                             "edits": [], "patchfile": str(meta_path.parent / "patch.diff")})
+            continue
         if not meta.get("caught_by") and meta.get("not_decided"):
             # an honest 'cannot decide': the check must stop with exit 2, neither pass nor invent a violation
             VARIANTS.append({"prop": meta["property"], "id": f"{meta['property']}:seed-{meta_path.parent.name}", "expect": "U", "rule": "",
